@@ -64,6 +64,8 @@ type comp struct {
 	serial int
 	cfg    *Conf
 	seen   Conf
+	held   Conf       // the configuration as given (shallow): keeps its map / list / nested struct alive, so addresses are never reused
+	refs   [3]uintptr // round 4: the map / list / nested-struct storage of the configuration the component was given (0: none)
 	w      *world
 	binds  int
 }
@@ -138,6 +140,7 @@ type world struct {
 	products            []*comp
 	plugT               reflect.Type // the plugin interface: Iface, or core.Gun on the engine path
 	bad                 bool         // hook / engine path: the user's settings do not decode
+	badKey              bool         // … because of a key the config type does not have (bad=2), not a wrongly typed value
 	vmin                int          // hook / engine path: the config type's validation rule is Conf.C >= vmin
 	yield               bool         // conc path: user code yields the processor
 	ext                 extDef       // round 4: registered defaults of the structured options (over.go)
@@ -220,8 +223,10 @@ func (w *world) build(serial int, arg []reflect.Value) *comp {
 		switch v := arg[0].Interface().(type) {
 		case Conf:
 			c.seen = deepConf(v)
+			c.held, c.refs = v, confRefs(v)
 		case *Conf:
 			c.seen = deepConf(*v)
+			c.held, c.refs = *v, confRefs(*v)
 			c.cfg = v
 			v.Mark = serial
 		}
@@ -535,7 +540,7 @@ func c18Run(input string) string {
 	}
 	newPlugin, newFactory := creators(kv["fill"] == "1")
 	w.drive(kv["form"], k, newPlugin, newFactory)
-	return "steps=" + strings.Join(w.steps, ";") + " views=" + viewsOf(w.products)
+	return "steps=" + strings.Join(w.steps, ";") + " views=" + viewsOf(w.products) + w.sharedText()
 }
 
 // drive: one creation of the requested form followed by k calls
@@ -651,7 +656,9 @@ func (w *world) userKeysOf(u [3]*int, m map[string]interface{}) {
 	if w.ext.on {
 		extUserKeys(m, w.ux)
 	}
-	if w.bad {
+	if w.bad && w.badKey {
+		m["zz"] = 1 // an option the config type does not have (a misspelt key)
+	} else if w.bad {
 		m["a"] = "not-a-number"
 	}
 }
@@ -1027,7 +1034,7 @@ func c18Class(input, obs string) string {
 	}
 	if kv["via"] == "hook" {
 		c = "hook-" + c
-		if kv["bad"] == "1" {
+		if kv["bad"] == "1" || kv["bad"] == "2" {
 			c = "hookbad-" + c
 		}
 	}
@@ -1082,6 +1089,13 @@ func c18Gen(r *rand.Rand, tier string) []string {
 func c18GenRounds(r *rand.Rand, tier string, rounds int) []string {
 	var out []string
 	val := func() string { return strconv.Itoa(r.Intn(90) + 1) }
+	// a user's setting: now and then an explicit ZERO (a value like any other: it replaces a non-zero default)
+	uval := func() string {
+		if r.Intn(6) == 0 {
+			return "0"
+		}
+		return val()
+	}
 	for round := 0; round < rounds; round++ {
 		for _, fa := range "PF" {
 			for _, cfg := range "nsp" {
@@ -1111,7 +1125,7 @@ func c18GenRounds(r *rand.Rand, tier string, rounds int) []string {
 											for i := range u {
 												u[i] = "_"
 												if r.Intn(2) == 0 {
-													u[i] = val()
+													u[i] = uval()
 												}
 											}
 											s := fmt.Sprintf("sh=%c%c%c%c%c%c form=%s fill=%d d=%s/%s/%s u=%s k=%d",
@@ -1131,7 +1145,7 @@ func c18GenRounds(r *rand.Rand, tier string, rounds int) []string {
 										for i := range u {
 											u[i] = "_"
 											if cfg != 'n' && r.Intn(2) == 0 { // the decoder refuses unknown keys
-												u[i] = val()
+												u[i] = uval()
 											}
 										}
 										if r.Intn(4) == 0 {
@@ -1186,14 +1200,14 @@ func c18GenRounds(r *rand.Rand, tier string, rounds int) []string {
 								if !refused {
 									forms := []string{"c", "f1", "f2"}
 									// the user's settings do not decode: every fillConf (the real decoder) fails
-									out = append(out, fmt.Sprintf("via=hook sh=%c%c%c%c%c%c form=%s fill=1 bad=1 d=%s/%s/%s u=_/_/_ k=%d ff= cf= rf=",
-										fa, cfg, ce, fe, ifc, df, forms[r.Intn(3)], val(), val(), val(), r.Intn(6)))
+									out = append(out, fmt.Sprintf("via=hook sh=%c%c%c%c%c%c form=%s fill=1 bad=%d d=%s/%s/%s u=_/_/_ k=%d ff= cf= rf=",
+										fa, cfg, ce, fe, ifc, df, forms[r.Intn(3)], 1+r.Intn(2), val(), val(), val(), r.Intn(6)))
 									// the same constructor registered as a gun (core/register) of a pool of the real engine
 									u := make([]string, 3)
 									for i := range u {
 										u[i] = "_"
 										if cfg != 'n' && r.Intn(2) == 0 {
-											u[i] = val()
+											u[i] = uval()
 										}
 									}
 									few := func() string { // faults only where the engine is still sequential: warm-up and first instance
@@ -1218,7 +1232,7 @@ func c18GenRounds(r *rand.Rand, tier string, rounds int) []string {
 											for j := range pu {
 												pu[j] = "_"
 												if cfg != 'n' && r.Intn(2) == 0 {
-													pu[j] = val()
+													pu[j] = uval()
 												}
 											}
 											fill := r.Intn(2)
@@ -1261,7 +1275,7 @@ func c18GenRounds(r *rand.Rand, tier string, rounds int) []string {
 			plain = append(plain, c)
 		}
 		// through the hooks: no shared default pointer (several decoders would write one object: the plugin author's sharing)
-		if strings.HasPrefix(c, "via=hook sh=") && !strings.Contains(c, " nm=") && !strings.Contains(c, " bad=1") && c[17] != 's' &&
+		if strings.HasPrefix(c, "via=hook sh=") && !strings.Contains(c, " nm=") && !strings.Contains(c, " bad=") && c[17] != 's' &&
 			len(hooked) < 4000 {
 			hooked = append(hooked, c)
 			if sh := c[12:18]; !seenShape[sh] {
